@@ -191,6 +191,11 @@ pub enum Op {
     SendBurst(Sel),
     /// LoopSignal::wakeup(): the next wait returns at once, with no event
     Wakeup,
+    /// a composite hands one of its Generic sub-sources back to the user: Generic::unwrap() while registered
+    UnwrapChild(Sel, u8),
+    /// enable() on a source that is enabled already: the poller rejects the duplicate fd, the call fails and
+    /// nothing changes (the source keeps its events and its lifecycle hooks)
+    EnableAgain(Sel),
     /// more stream items than any per-dispatch batch limit could take (1100), made ready at once
     StreamBurst(Sel),
     /// change interest and mode of a Generic through the Dispatcher, then update()
